@@ -185,6 +185,17 @@ fn spawn_worker() -> Worker {
     Worker { child, rx }
 }
 
+/// CPU seconds (user + system, all threads) the process has used so far; 0 when unreadable.
+fn child_cpu_secs(pid: u32) -> f64 {
+    let Ok(s) = std::fs::read_to_string(format!("/proc/{}/stat", pid)) else { return 0.0 };
+    // fields after the parenthesised command name: state is field 3, utime 14, stime 15
+    let Some(rest) = s.rfind(')').map(|i| &s[i + 1..]) else { return 0.0 };
+    let f: Vec<&str> = rest.split_whitespace().collect();
+    let get = |k: usize| f.get(k).and_then(|x| x.parse::<f64>().ok()).unwrap_or(0.0);
+    // rest[0] = state (field 3) => utime = rest[11], stime = rest[12], cutime = rest[13], cstime = rest[14]
+    (get(11) + get(12) + get(13) + get(14)) / 100.0
+}
+
 /// Run the requests through isolated children; returns one answer per request.
 pub fn run_isolated(reqs: &[String], limits: &Limits) -> Vec<String> {
     let mut answers = Vec::with_capacity(reqs.len());
@@ -197,17 +208,45 @@ pub fn run_isolated(reqs: &[String], limits: &Limits) -> Vec<String> {
         let ans = if !sent {
             None
         } else {
-            match w.rx.recv_timeout(limits.per_case) {
-                Ok(Some(a)) => Some(a),
-                Ok(None) => None,
-                Err(mpsc::RecvTimeoutError::Timeout) => {
-                    let _ = w.child.kill();
-                    let _ = w.child.wait();
-                    answers.push("timeout".to_string());
-                    w = spawn_worker();
-                    continue;
+            // The budget is CPU time of the child, not wall-clock time: on a loaded machine a
+            // starved child must not be reported as hanging (that would be a false alarm). A
+            // child that burns `per_case` of CPU, or shows no answer after 8 x `per_case` of
+            // wall-clock time (a sleeping hang / deadlock), is a timeout.
+            let pid = w.child.id();
+            let cpu0 = child_cpu_secs(pid);
+            let t0 = std::time::Instant::now();
+            let mut got: Option<Option<String>> = None;
+            let mut timed_out = false;
+            loop {
+                match w.rx.recv_timeout(Duration::from_millis(250)) {
+                    Ok(a) => {
+                        got = Some(a);
+                        break;
+                    }
+                    Err(mpsc::RecvTimeoutError::Timeout) => {
+                        let wall = t0.elapsed();
+                        if wall < limits.per_case {
+                            continue;
+                        }
+                        let cpu = child_cpu_secs(pid) - cpu0;
+                        if cpu >= limits.per_case.as_secs_f64() || wall >= limits.per_case * 8 {
+                            timed_out = true;
+                            break;
+                        }
+                    }
+                    Err(_) => break,
                 }
-                Err(_) => None,
+            }
+            if timed_out {
+                let _ = w.child.kill();
+                let _ = w.child.wait();
+                answers.push("timeout".to_string());
+                w = spawn_worker();
+                continue;
+            }
+            match got {
+                Some(Some(a)) => Some(a),
+                _ => None,
             }
         };
         match ans {
